@@ -354,6 +354,110 @@ def native_jobs(tier):
     return jobs
 
 
+# ---------------------------------------------------------------------------------------------
+# parse family (C15): run-time parse, generated compile-time literals, make_* deduction
+
+def literal_tokens(tier):
+    import random
+    rnd = random.Random(vlib.seed() * 65537 + 11)
+    n = 40 if tier == "quick" else 300
+
+    def digits(base, length, lead):
+        al = "0123456789abcdef"[:base]
+        body = "".join(rnd.choice(al) for _ in range(length - 1))
+        return al[lead] + body
+
+    def seps(s, stride):
+        out = s
+        for pos in range(len(s) - stride, 0, -stride):
+            out = out[:pos] + "'" + out[pos:]
+        return out
+    c, cnl, cnl2, wide, mk = [], [], [], [], []
+    # _c: intmax_t range -> up to 18 decimal / 15 hex / 20 octal / 62 binary digits
+    for base, pre, maxlen in ((10, "", 18), (16, "0x", 15), (8, "0", 20), (2, "0b", 62)):
+        for length in sorted(set([1, 2, maxlen // 2, maxlen - 1, maxlen] + [rnd.randint(1, maxlen) for _ in range(n // 8)])):
+            for lead in (1, base - 1):
+                c.append(pre + digits(base, length, lead))
+        c.append(pre + seps(digits(base, maxlen, 1), 3))
+    for _ in range(n):
+        ip = digits(10, rnd.randint(1, 9), rnd.randint(1, 9))
+        fp = digits(10, rnd.randint(1, 8), rnd.randint(0, 9)).rstrip("0") or "5"
+        cnl.append(ip + "." + fp)
+        cnl.append(ip + "0" * rnd.randint(0, 6))
+    for _ in range(n // 2):
+        ip = digits(10, rnd.randint(1, 9), rnd.randint(1, 9))
+        k = rnd.randint(1, 6)
+        fp = ("%.6f" % (rnd.randrange(1, 2 ** k, 2) / 2.0 ** k)).split(".")[1].rstrip("0")
+        cnl2.append(ip + "." + fp)
+        cnl2.append(str(rnd.randrange(1, 2 ** 20) << rnd.randint(0, 20)))
+        cnl.append("0x" + digits(16, rnd.randint(1, 14), rnd.randint(1, 15)))
+    # _wide: every chunk boundary (18 dec / 15 hex / 21 oct / 63 bin digits per chunk)
+    for base, pre, stride in ((10, "", 18), (16, "0x", 15), (8, "0", 21), (2, "0b", 63)):
+        lens = sorted(set([1, stride - 1, stride, stride + 1, 2 * stride - 1, 2 * stride, 2 * stride + 1, 3 * stride + 2] +
+                          [rnd.randint(1, 4 * stride) for _ in range(n // 10)]))
+        for length in lens:
+            for lead in (1, max(1, base // 2 - 1), base // 2, base - 1):
+                wide.append(pre + digits(base, length, lead))
+        wide.append(pre + seps(digits(base, 2 * stride + 3, 1), stride))
+    for v in [0, 1, -1, 2, 3, 96, -96, 255, 256, 257, 1 << 20, (1 << 20) + 1, (1 << 31) - 1, 1 << 31, -(1 << 31), (1 << 40) * 3,
+              (1 << 62), (1 << 63) - 1, -((1 << 63) - 1), 0x5555555555555555, 0x2AAAAAAAAAAAAAAA] + \
+             [rnd.randrange(1, 1 << rnd.randint(2, 62)) << rnd.randint(0, 10) for _ in range(n // 3)]:
+        if -(1 << 63) < v < (1 << 63):
+            mk.append(v)
+    # the library's width estimate for decimal tokens, (n*3322+678)/1000 - (leading digit*2 < 10), is one bit short
+    # for some tokens (known finding WIDE-LITERAL-WIDTH-ESTIMATE: those literals do not compile); keep them out of
+    # the generated units -- the probe in parse_extra() reports the finding
+    def compiles(tok):
+        if tok.startswith("0"):
+            return True
+        d = tok.replace("'", "")
+        est = (len(d) * 3322 + 678) // 1000 - (1 if int(d[0]) * 2 < 10 else 0)
+        return int(d).bit_length() <= max(est, 31)
+    wide = [t for t in wide if compiles(t)]
+    lines = ["LIT_C(%s)" % t for t in sorted(set(c))] + ["LIT_CNL(%s)" % t for t in sorted(set(cnl))] + \
+            ["LIT_CNL2(%s)" % t for t in sorted(set(cnl2))] + ["LIT_WIDE(%s)" % t for t in sorted(set(wide))] + \
+            ["MAKE_C(%dLL)" % v for v in sorted(set(mk))]
+    return lines
+
+
+def parse_jobs(tier):
+    lines = literal_tokens(tier)
+    nfiles = 8 if tier == "quick" else 24
+    jobs = [dict(src="h_parse.cpp", cc="gcc", tag="parse-gcc-rt", defines=["PARSE_PART=0"]),
+            dict(src="h_parse.cpp", cc="clang", tag="parse-clang-rt", defines=["PARSE_PART=0"])]
+    for k in range(nfiles):
+        body = "\n".join(lines[k::nfiles]) + "\n"
+        p = os.path.join(vlib.BUILD, "gen", "parse-inst-%s.inc" % vlib.sha(body))
+        os.makedirs(os.path.dirname(p), exist_ok=True)
+        if not os.path.exists(p):
+            with open(p + ".tmp", "w") as f:
+                f.write(body)
+            os.replace(p + ".tmp", p)
+        cc = "clang" if (k + vlib.seed()) % 4 == 0 else "gcc"
+        jobs.append(dict(src="h_parse.cpp", cc=cc, tag="parse-%s-lit-%d" % (cc, k), defines=["PARSE_PART=1", 'VERIF_INST_FILE="%s"' % p]))
+    return jobs
+
+
+WIDE_LITERAL_PROBE = "9610313641246308506"
+
+
+def parse_extra(prop, tier, total, bads, design):
+    """compile probe for the known width-estimate defect of decimal _wide literals"""
+    d = os.path.join(vlib.BUILD, "gen")
+    os.makedirs(d, exist_ok=True)
+    inc = os.path.join(d, "parse-probe.inc")
+    with open(inc, "w") as f:
+        f.write("LIT_WIDE(%s)\n" % WIDE_LITERAL_PROBE)
+    try:
+        vlib.build_one("h_parse.cpp", "gcc", ["PARSE_PART=1", 'VERIF_INST_FILE="%s"' % inc], "parse-probe")
+    except vlib.BuildError as e:
+        if "overflow in constant expression" in e.output or "static assertion" in e.output:
+            bads.append(dict(event=dict(e="LitCompile", tok=WIDE_LITERAL_PROBE, cc="gcc"), inst=dict(kind="Lit", op="_wide"),
+                             diag="does_not_compile", cls='["LitCompile","_wide",10]', ac="novel", file="probe", line=0))
+        else:
+            raise
+
+
 def wide_jobs(tier):
     sets = [0, 1, 2, 3] if tier == "quick" else [0, 1, 2, 3, 4]
     jobs = [dict(src="h_wide.cpp", cc="gcc", tag="wide-gcc-%d" % k, defines=["WIDE_SET=%d" % k]) for k in sets]
@@ -362,6 +466,7 @@ def wide_jobs(tier):
 
 
 FAMILIES = {
+    "parse": dict(jobs=parse_jobs, attr=lambda kind, op, tag, diag: ["C15"]),
     "native": dict(jobs=native_jobs, attr=lambda kind, op, tag, diag: ["C12"]),
     "text": dict(jobs=text_jobs, attr=text_attr, record_timeout=1800),
     "wide": dict(jobs=wide_jobs, attr=lambda kind, op, tag, diag: ["C10"], record_timeout=1800),
@@ -530,6 +635,22 @@ CHECKS = {
                "when the expansion has <= 18 significant digits and the buffer has the static capacity; to_string, "
                "to_chars_static and operator<< equal to_chars.",
                "exactness is only demanded at full capacity (deciding 'fits the buffer' for shorter buffers is not modelled)"),
+    "C15": dict(chk(["parse"], [],
+               "events = (a) run-time cnl::_impl::parse<T>(token), T = int64 / wide_integer<200> / wide_integer<1000>, tokens of "
+               "every length up to two accumulation chunks + 2 per base (18 dec / 15 hex / 21 oct / 63 bin digits per chunk), "
+               "leading digit in {1, base/2-1, base/2, base-1}, fills {0.., max.., alternating, random}, +/- sign, separators at "
+               "chunk edges; (b) compile-time literals _c, _cnl, _cnl2, _wide in generated translation units (the program "
+               "under test contains the tokens; lengths around every chunk boundary, VERIF_SEED-chosen digits); (c) "
+               "make_elastic_integer / make_elastic_scaled_integer / make_static_integer / make_static_number / "
+               "make_scaled_integer from constants (boundary-rich set) and from run-time values; non-trivial = all",
+               "TLA+ spec (SemParse: tokeniser with base prefixes and separators, Horner value in unbounded integers, "
+               "used-digits / trailing-zeros rules for deduced types) evaluated by TLC on every recorded event (trace validation)",
+               "parse and literals must yield exactly the token's value in a type wide enough; _cnl/_cnl2 significand x "
+               "radix^exponent equals the decimal token exactly with no factor of the radix left in the significand; factories "
+               "hold the initializer exactly with digits = used digits and exponent = trailing zero bits for constants.",
+               "class template argument deduction is not judged: this version of the library has no deduction guides for "
+               "constants (scaled_integer{v} is the default specialisation's converting constructor); tokens whose value does "
+               "not fit the run-time target type are skipped"), extra=parse_extra),
     "C16": chk(["fraction"], [],
                "events = +,-,*,/ , unary -/+, the six comparisons, reduce, canonical, std::hash on pairs (n,d)/(k*n,k*d), and "
                "explicit conversion to float/double on cnl::fraction<T>, T = int8..int64; unary operations over every 8-bit "
